@@ -39,7 +39,7 @@ func writeCmdConfig(dir string, p *spec.Program) string {
 	for n, a := range p.AutoVars {
 		if a.ArgPos >= 0 {
 			pos := a.ArgPos
-			m[n] = av{Pos: &pos}
+			m[n] = av{VarName: a.VarName, Pos: &pos}
 		} else {
 			m[n] = av{VarName: a.VarName}
 		}
